@@ -277,7 +277,7 @@ func inMemoryEnds(c *core.Ctx, s setup, digest string, refStream []byte) {
 		return
 	}
 	if err != nil {
-		if c.Oracle("C14") {
+		if c.Oracle("C14", "C15") {
 			c.Violation("decode-error", "mice.NewDecoder/in-memory-source", "NewDecoder failed on the honest stream read from an advanced in-memory reader: %v", err)
 		}
 		return
@@ -287,7 +287,7 @@ func inMemoryEnds(c *core.Ctx, s setup, digest string, refStream []byte) {
 		small := make([]byte, c.Int("mem.firstRead", 1, s.rs))
 		n, rerr := dec.Read(small)
 		out = append(out, small[:n]...)
-		if rerr != nil && c.Oracle("C14") {
+		if rerr != nil && c.Oracle("C14", "C15") {
 			c.Violation("decode-error", "mice.decoder.Read/in-memory-source", "first Read failed: %v", rerr)
 		}
 		feed()
@@ -298,7 +298,7 @@ func inMemoryEnds(c *core.Ctx, s setup, digest string, refStream []byte) {
 		return
 	}
 	out = append(out, rr.out...)
-	if c.Oracle("C14") {
+	if c.Oracle("C14", "C15") {
 		if rr.firstErr != nil {
 			c.Violation("decode-error", "mice.decoder.Read/in-memory-source", "Read failed on the honest stream after %d bytes: %v", len(out), rr.firstErr)
 		}
@@ -334,7 +334,7 @@ func runClean(c *core.Ctx, s setup) {
 			c.Violation("header-name", "mice.Encoding", "header name %q/%q", s.enc.DigestHeaderName(), s.enc.ContentEncoding())
 		}
 	}
-	if c.Chance("inMemoryEnds", 1, 4) {
+	if c.Chance("inMemoryEnds", 1, 4) || (core.ActiveProp() == "C15" && c.Bool("inMemoryEnds.c15")) {
 		inMemoryEnds(c, s, digest, refStream)
 	}
 	// decode under a clean but arbitrary delivery schedule
@@ -714,11 +714,12 @@ func TestArbitrary(t *testing.T) {
 					h := sha256.Sum256([]byte{0})
 					top = h[:]
 				}
-				if ref := refmice.Decode(s.draft, stream, top, 16384); ref.Complete || len(ref.Prefix) > 0 {
-					committed = ref.Prefix
-					commits = ref.Complete
-				} else {
-					committed, commits = nil, false
+				// what these values commit to does not depend on the stream: SHA-256 of a lone 0
+				// byte is the proof of an empty final record, i.e. the digest of the empty payload;
+				// no payload at all has any of the others
+				committed, commits = nil, false
+				if bytes.Equal(top, func() []byte { h := sha256.Sum256([]byte{0}); return h[:] }()) {
+					committed, commits = []byte{}, true
 				}
 				c.Probe("digest with a sentinel-like value")
 			case 6:
@@ -788,7 +789,11 @@ func TestArbitrary(t *testing.T) {
 			rr, _, _ := runDecoder(c, s, stream, hdr, 16384, plan, c.Int("caller.retries", 0, 2))
 			if c.Oracle("C15") {
 				ref := refmice.Decode(s.draft, effective(stream, plan), top, 16384)
-				checkSafety(c, "mice.decoder.Read/arbitrary", rr, committed, commits)
+				// (an EOF that follows an error the decoder has already reported is not a clean end of
+				// stream - the caller was told the stream is bad - as in mi/channel-faults)
+				first := rr
+				first.eof = rr.eofClean
+				checkSafety(c, "mice.decoder.Read/arbitrary", first, committed, commits)
 				if rr.errAtLen < 0 || rr.eofClean {
 					// no error so far: nothing was skipped, the reference model's view of the contiguous stream applies
 					pre := rr
